@@ -266,6 +266,14 @@ class Exec:
                                                   z3.And(0 <= pos(z, kx), pos(z, kx) < klen,
                                                          karr[pos(z, kx)] == kx)),
                                  patterns=[t.has(z)[kx]]))
+            if isinstance(t.v, TSeq) and depth < 2:
+                vk = z3.Const("wf_vk%d" % depth, t.k.sort())
+                out.append(z3.ForAll([vk], t.v.len(t.vals(z)[vk]) >= 0, patterns=[t.vals(z)[vk]]))
+        elif isinstance(t, TMap):
+            # total ghost maps into sequences: every value is a sequence (length >= 0)
+            if isinstance(t.v, TSeq) and depth < 2:
+                mk_ = z3.Const("wf_mk%d" % depth, t.k.sort())
+                out.append(z3.ForAll([mk_], t.v.len(z3.Select(z, mk_)) >= 0, patterns=[z3.Select(z, mk_)]))
         elif isinstance(t, TOpt):
             inner = self.wf(SV(t.inner, t.val(z)), depth + 1)
             if inner:
@@ -795,7 +803,21 @@ class Exec:
     def ev_Dict(self, st, node):
         if not node.keys:
             return SV(TPy("emptydict"), py={})
-        raise Unsupported("dict literal")
+        t = getattr(st, "_expect_dict", None)
+        if t is None or any(k is None for k in node.keys):
+            raise Unsupported("dict literal without a declared dict type for its target")
+        st._expect_dict = None
+        d = self.lib.dict_empty(self, st, t)
+        for kn, vn in zip(node.keys, node.values):
+            k = self.coerce(self.ev(st, kn), t.k)
+            if isinstance(t.v, TSeq):
+                st._expect_elem = t.v.elem
+            try:
+                v = self.coerce_decl(st, self.ev(st, vn), t.v)
+            finally:
+                st._expect_elem = None
+            d = self.lib.dict_set(self, st, d, k, v)
+        return d
 
     def ev_Lambda(self, st, node):
         return SV(FUNC, py=("lambda", node, dict(st.env)))
@@ -1225,7 +1247,7 @@ class Exec:
             return
         if isinstance(base.t, TDict):
             k = self.coerce(idx, base.t.k)
-            v = self.coerce(val, base.t.v)
+            v = self.coerce_decl(st, val, base.t.v)
             st.env[bn] = self.lib.dict_set(self, st, base, k, v)
             return
         raise Unsupported("store %s[%s]" % (base.t, idx.t))
